@@ -10,7 +10,8 @@
    buf_size_bytes argument.  Preconditions of the C contract are boolean guards:
      copy_pre  = both buffers are large enough for the addressed ranges, allocations < 2^61 bytes
      buf_pre   = size <= allocation, allocation < 2^61 bytes, offset is a size_t, bytes < 256. *)
-From Verif Require Import Bits CPrims CPrimsThm F16 F16Thm F16ArithThm CppPrims CppPrimsThm CppPrimsMoreThm PyPrims PyPrimsThm PyPrimsMoreThm PyPrimsStdThm PyPrimsBitsThm PyPrimsForkThm PrimsExt PrimsExtThm.
+From Verif Require Import Bits CPrims CPrimsThm F16 F16Thm F16ArithThm CppPrims CppPrimsThm CppPrimsMoreThm PyPrims PyPrimsThm PyPrimsMoreThm PyPrimsStdThm PyPrimsBitsThm PyPrimsForkThm PrimsExt PrimsExtThm
+  CPrimsW CPrimsWThm F16FlocqDefs F16Flocq PyComposeThm CppComposeThm.
 Open Scope N_scope.
 
 (* ---------------------------------------------------------------------------------------------
@@ -93,7 +94,9 @@ Example C14_buf_pre_satisfiable :
   buf_pre [1; 2; 3] 2 100 = true /\ buf_pre [] 0 0 = true.
 Proof. vm_compute. auto. Qed.
 
-(* nunavutSetUxx (both renderings): error iff the buffer is too small, otherwise exactly
+(* DOMAIN: off_bits + len_bits < 2^64 (size_t).  Outside it the shipped check is wrong: see C14_set_uxx_offset_wrap_refuted and
+   C14_size_t_widths below (known finding F-SETUXX-OFFSET-WRAP).
+   nunavutSetUxx (both renderings): error iff the buffer is too small, otherwise exactly
    min(len,64) bits are written and every other bit of the allocation keeps its value *)
 Theorem C14_set_uxx_exact :
   forall (little : bool) (buf : bytes) (size off value len : N),
@@ -613,3 +616,105 @@ Theorem C14_py_arrays_of_standard_primitives :
      be_fetch_aligned_array_std d w count = None /\ be_fetch_unaligned_array_std d w count = None).
 Proof. split; [exact add_array_std_appends|split; [exact le_image_bit|split; [exact fetch_array_std_spec|exact be_array_std_not_implemented]]]. Qed.
 Print Assumptions C14_py_arrays_of_standard_primitives.
+
+(* =============================================================================================
+   Round 5 (audit follow-up). *)
+
+(* The capacity check `(buf_size_bytes * 8) < (off_bits + len_bits)` of nunavutSetUxx / bitspan::setUxx is NOT wrap-free:
+   for off_bits within len_bits of the maximum of size_t the sum wraps, the check passes and the copy leaves the buffer
+   (None = out-of-range access) although buf_pre holds and the buffer is too small.  Witness, both widths of size_t and C++:
+   2-byte buffer, offset 2^W - 8, 16 bits.  Reproduced on the rendered headers (SIGSEGV); known finding F-SETUXX-OFFSET-WRAP. *)
+Theorem C14_set_uxx_offset_wrap_refuted :
+  ((exists buf size off value len,
+      buf_pre buf size off = true /\ size * 8 < off + len /\ set_uxx false buf size off value len = None /\
+      set_uxx true buf size off value len = None) /\
+   (exists buf size off value len,
+      buf_preM (2 ^ 32) buf size off = true /\ size * 8 < off + len /\ set_uxxM (2 ^ 32) false buf size off value len = None)) /\
+  (exists s value len, span_okb s = true /\ sp_bits s < len /\ cpp_set_uxx s value len = None).
+Proof. split; [exact set_uxx_offset_wrap_refuted|exact cpp_set_uxx_offset_wrap_refuted]. Qed.
+Print Assumptions C14_set_uxx_offset_wrap_refuted.
+
+(* size_t as a parameter (Prims/CPrimsW.v: the text of CPrims.v with every size_t operation modulo M).  For BOTH deployment
+   widths, M = 2^32 and M = 2^64: copy exact; SetUxx exact on the domain off + len < M; the saturating check of
+   design_notes/C14_wrap_fix.patch exact for EVERY offset and length; GetU*/GetI* for every offset.  M = 2^64 is, definitionally,
+   the model that is extracted and run against the compiled header. *)
+Theorem C14_size_t_widths :
+  c_theorems_at_width (2 ^ 32) /\ c_theorems_at_width (2 ^ 64) /\
+  (forall dst doff len src soff, copy_bitsM two64 dst doff len src soff = copy_bits dst doff len src soff) /\
+  (forall l b s off v len, set_uxxM two64 l b s off v len = set_uxx l b s off v len) /\
+  (forall l w b s off len, get_uxxM two64 l w b s off len = get_uxx l w b s off len) /\
+  (forall l w b s off len, get_ixxM two64 l w b s off len = get_ixx l w b s off len).
+Proof.
+  split; [exact (c_theorems_any_width _ width32_ok)|]. split; [exact (c_theorems_any_width _ width64_ok)|].
+  repeat split.
+Qed.
+Print Assumptions C14_size_t_widths.
+
+(* Half precision and IEEE-754: on the whole finite domain on which the C/C++ code multiplies (every finite non-negative
+   binary32 with the low 12 bits cleared; every 15-bit half magnitude) Flocq's binary32 multiplication / comparison on the
+   union-punned bit patterns give exactly mul_2m112 / unpack_mag, hence pack_mag is the C function with IEEE arithmetic.
+   (Flocq's floats carry proofs over the reals: this theorem, and only this one, lists the axioms of the standard library's Reals.) *)
+Theorem C14_f16_ieee_bridge :
+  (forall y, y < F32INF -> y mod 4096 = 0 -> ieee_mul y MAGIC_PACK = mul_2m112 y) /\
+  (forall h, h < 32768 -> unpack_mag_ieee h = unpack_mag h) /\
+  (forall y, pack_mag_ieee y = pack_mag y).
+Proof. split; [exact mul_2m112_is_ieee|split; [exact unpack_mag_is_ieee|exact pack_mag_is_ieee]]. Qed.
+Print Assumptions C14_f16_ieee_bridge.
+
+(* Python float members: under the packing law of struct (named hypothesis: `size` bytes, each < 256) add_*_f16/32/64 append
+   exactly those bytes at any bit offset, and fetch_*_f16/32/64 hand struct.unpack the bytes found at the cursor *)
+Theorem C14_py_float_members :
+  (forall (F : Type) (float_to_bytes : N -> F -> bytes) (aligned : bool) (s : ser) (size : N) (x : F),
+     float_to_bytes_law float_to_bytes -> (size = 2 \/ size = 4 \/ size = 8) ->
+     Inv s -> bytes_ok (s_buf s) ->
+     (if aligned then s_off s mod 8 = 0 /\ s_off s / 8 + size <= blen (s_buf s) else s_off s / 8 + size < blen (s_buf s)) ->
+     exists s', (if aligned then add_aligned_float F float_to_bytes s size x else add_unaligned_float F float_to_bytes s size x) = Some s' /\
+                appended s s' (8 * size) (bit (float_to_bytes size x))) /\
+  (forall (F : Type) (bytes_to_float : N -> bytes -> F) (aligned : bool) (d : des) (size : N),
+     bytes_ok (d_buf d) -> (aligned = true -> d_off d mod 8 = 0) ->
+     exists bs d', (if aligned then fetch_aligned_float bytes_to_float d size else fetch_unaligned_float bytes_to_float d size)
+                   = Some (bytes_to_float size bs, d') /\
+       d_buf d' = d_buf d /\ d_off d' = d_off d + 8 * size /\ blen bs = size /\ bytes_ok bs /\
+       forall k, bit bs k = (k <? 8 * size) && bit (d_buf d) (d_off d + k)).
+Proof. split; [exact @add_float_appends|exact @fetch_float_spec]. Qed.
+Print Assumptions C14_py_float_members.
+
+(* Sequences of cursor operations on the Python Serializer.  `good op`: if op does not raise, then the invariant, byte-ness, the
+   buffer length and every bit before the old cursor survive and the cursor does not move back.  Every primitive is good, good
+   operations are closed under arbitrary sequencing (run_ops) and under the fork -> skip header -> child -> join -> header ->
+   skip_bits pattern of delimited serialization (ser_delimited, any good child: nesting included); the pattern leaves the
+   child's bits right after the 32-bit header. *)
+Theorem C14_py_cursor_sequences :
+  (forall ops, Forall good ops -> good (run_ops ops)) /\
+  (forall k, good (fun s => Some (skip_bits s k))) /\
+  (forall x, good (fun s => add_unaligned_bit s x)) /\
+  (forall value, bytes_ok value -> good (fun s => add_unaligned_bytes s value)) /\
+  (forall value bits, good (fun s => add_unaligned_unsigned s value bits)) /\
+  (forall n, good (fun s => pad_to_alignment s n)) /\
+  (forall x, good (fun s => add_aligned_u8 s x) /\ good (fun s => add_aligned_u16 s x) /\ good (fun s => add_aligned_u32 s x)) /\
+  (forall child n, good child -> good (ser_delimited child n)) /\
+  (forall child n s s',
+     good child -> Inv s -> bytes_ok (s_buf s) -> ser_delimited child n s = Some s' ->
+     exists f f', ser_fork_bytes s n = Some f /\ child (skip_bits f 32) = Some f' /\
+       let L := s_off f' - 32 in
+       L mod 8 = 0 /\ s_off s' = s_off s + 32 + L /\
+       (forall k, 32 <= k < 32 + L -> k < 8 * (n + 1) -> bit (s_buf s') (s_off s + k) = bit (s_buf f') k)).
+Proof.
+  split; [exact good_run_ops|]. split; [exact good_skip|]. split; [exact good_bit|]. split; [exact good_unaligned_bytes|].
+  split; [exact good_unaligned_unsigned|]. split; [exact good_pad|]. split; [exact good_aligned_u8_u16_u32|].
+  split; [exact good_delimited|exact delimited_layout].
+Qed.
+Print Assumptions C14_py_cursor_sequences.
+
+(* Sequences of cursor operations on a C++ bitspan (setUxx + add_offset, setZeros + add_offset, padAndMoveToAlignment): if no
+   member reports an error, the span stays well formed, the cursor only moves forward (by at most the requested lengths) and every
+   bit before the old cursor and at or after the new one is untouched.  Domain: the cursor stays below 2^64. *)
+Theorem C14_cpp_cursor_sequences :
+  forall (ops : list cpp_op) (s s' : span),
+    span_ok s -> bytes_ok (sp_data s) -> Forall cpp_op_ok ops -> sp_off s + total_span ops < two64 ->
+    cpp_run ops s = Some s' ->
+    sp_size s' = sp_size s /\ length (sp_data s') = length (sp_data s) /\ bytes_ok (sp_data s') /\ span_ok s' /\
+    sp_off s <= sp_off s' <= sp_off s + total_span ops /\
+    forall p, p < sp_off s \/ sp_off s' <= p -> bit (sp_data s') p = bit (sp_data s) p.
+Proof. exact cpp_run_frame. Qed.
+Print Assumptions C14_cpp_cursor_sequences.
